@@ -325,6 +325,19 @@ func (r *rot) GetLog(idx uint64, out *raft.Log) error {
 	if !ok {
 		return nil
 	}
+	if fm[0] == "w" {
+		// whole records exchanged with the neighbour (fm[1] = "lo": the next index, "hi": the previous one)
+		other := idx + 1
+		if fm[1] == "hi" {
+			other = idx - 1
+		}
+		var o raft.Log
+		if err := r.LogStore.GetLog(other, &o); err != nil {
+			return nil // the neighbour is gone: nothing to exchange with
+		}
+		*out = *cloneLog(&o)
+		return nil
+	}
 	if o, ok := r.orig[idx]; !ok || !sameLog(o, out) {
 		r.orig[idx] = cloneLog(out)
 		r.memo[idx] = alter(out, fm[0], fm[1], rand.New(rand.NewSource(r.seed+int64(idx)*7919)))
@@ -995,13 +1008,20 @@ func (r *run) step(st Step) error {
 		r.out.emit(map[string]any{"ev": "restart", "n": nd.id})
 		r.probe(nd)
 	case "rot":
-		nd.rotS.mu.Lock()
-		nd.rotS.bad[st.I] = [2]string{st.F, st.M}
-		nd.rotS.mu.Unlock()
-		nd.rotT.mu.Lock()
-		nd.rotT.bad[st.I] = [2]string{st.F, st.M}
-		nd.rotT.mu.Unlock()
+		for _, rs := range []*rot{nd.rotS, nd.rotT} {
+			rs.mu.Lock()
+			if st.F == "w" {
+				rs.bad[st.I] = [2]string{"w", "lo"}
+				rs.bad[st.I+1] = [2]string{"w", "hi"}
+			} else {
+				rs.bad[st.I] = [2]string{st.F, st.M}
+			}
+			rs.mu.Unlock()
+		}
 		r.out.emit(map[string]any{"ev": "note", "what": "rot", "n": nd.id, "i": int(st.I), "f": st.F, "m": st.M})
+		if st.F == "w" {
+			r.out.emit(map[string]any{"ev": "note", "what": "rot", "n": nd.id, "i": int(st.I) + 1, "f": st.F, "m": st.M})
+		}
 		r.probe(nd)
 	case "finish":
 		if nd.state == "idle" {
